@@ -327,14 +327,14 @@ func (n *node[T]) balance() balanceFactor {
 
 func (n *node[T]) leftHeight() int {
 	if n.left == nil {
-		return 0
+		return -1
 	}
 	return n.left.height
 }
 
 func (n *node[T]) rightHeight() int {
 	if n.right == nil {
-		return 0
+		return -1
 	}
 	return n.right.height
 }
